@@ -167,3 +167,45 @@ def plan_c18(tier, seed):
               "extension_cbor_len17", "transport_cbor_len3", "attfmt_cbor_len4", "attfmt_cbor_len6"):
         hs.append(S("c18_" + n, "cbor_deserialize of a text item with fully symbolic contents (valid or not) of that length", sym=int(n.split("len")[1])))
     return hs
+
+
+# ---------------------------------------------------------------------------------- C08
+@register("C08", "c08", {
+    "functions": ["<ctap1::Request as TryFrom<iso7816::command::CommandView>>::try_from", "<ctap1::Request as TryFrom<&iso7816::Command<S>>>::try_from (S=64)",
+                  "ctap1::ControlByte::try_from(u8)", "iso7816::command::CommandView::try_from(&[u8]) / parse_lengths (real framing layer)"],
+    "bounds": "every APDU of <= 76 bytes (all bytes and the length symbolic): complete class x instruction x P1 x P2 space, short and "
+              "extended Lc/Le forms, data lengths 0..=69; extended-length templates with data lengths 63,64,65,66 and 318..=321 (key "
+              "handles 254/255 and off-by-one), header and every data byte symbolic",
+    "out": "data lengths 70..=317 other than the listed ones; APDUs iso7816 itself rejects (reserved class 0xFF, malformed Lc) never reach ctap-types",
+})
+def plan_c08(tier, seed):
+    hs = [S("c08_all_apdus_up_to_76", "all APDUs <= 76 bytes through the real iso7816 framing and ctap1::Request::try_from vs. the U2F decision table", sym=77, timeout=1800),
+          S("c08_owned_command_64", "all APDUs <= 74 bytes through Command<64>::try_from and TryFrom<&Command<64>>", sym=75, timeout=1800)]
+    for l, t in ((63, BOTH), (64, BOTH), (65, BOTH), (66, (T,)), (318, (T,)), (319, (T,)), (320, (T,)), (321, (T,))):
+        hs.append(S("c08_ext_len%d" % l, "extended-length APDU with %d symbolic data bytes, symbolic header" % l, tiers=t, fsa=340, sym=l + 6, timeout=1800))
+    return hs
+
+
+# ---------------------------------------------------------------------------------- C09
+@register("C09", "c09", {
+    "functions": ["ctap1::Response::serialize::<S>", "ctap1::register::Response::new"],
+    "bounds": "registration / authentication / version responses with ALL content bytes, header/presence byte, counter (2^32), "
+              "public-key coordinates and pre-existing buffer bytes symbolic; part lengths and buffer capacities enumerated: every "
+              "capacity around each part boundary for a 99-byte registration response, empty parts, key handle 254/255, certificate "
+              "1024 (thorough tier), signature 71/72, prefill 0/2/3/whole",
+    "out": "the 1418-byte maximal response and capacity 2048 (measured: > 50 min per instance, not run); part-length triples other than the enumerated ones (the encoder is a chain of length-uniform push/extend calls); buffer "
+           "contents after a failed call (unspecified by the property)",
+})
+def plan_c09(tier, seed):
+    small = ["s0", "s1", "s65", "s66", "s67", "s74", "s75", "s90", "s91", "s98", "s99", "s100", "s102_p3", "s101_p3", "s99_p99",
+             "empty_parts", "empty_parts_short"]
+    hs = [S("c09_reg_" + n, "registration response (kh 8, cert 16, sig 8 unless named) into capacity/prefill " + n, sym=100) for n in small]
+    for n, t in (("kh255", BOTH), ("kh255_short", BOTH), ("kh254", (T,))):
+        hs.append(S("c09_reg_" + n, "registration response with a %s key handle" % n, tiers=t, fsa=420, sym=400, timeout=2400))
+    for n, t in (("cert1024", (T,)), ("cert1024_short", (T,))):
+        hs.append(S("c09_reg_" + n, "registration response with the maximal certificate: " + n, tiers=t, fsa=1300, sym=1200, timeout=3600))
+    for n in ("s0", "s1", "s4", "s5", "s76", "s77", "s78", "s80_p3", "s79_p3", "sig0", "sig71", "s1024_p64"):
+        hs.append(S("c09_auth_" + n, "authentication response into capacity/prefill " + n, fsa=1100 if "1024" in n else None, sym=80))
+    for n in ("s0", "s5", "s6", "s7_p1", "s7_p2", "s64_p10"):
+        hs.append(S("c09_ver_" + n, "version response into capacity/prefill " + n, sym=7))
+    return hs
